@@ -394,10 +394,12 @@ def run(tier, seed, replay=None):
                 "Non-trivial = contains a gate other than a scalar or a rotation at an integer phase; "
                 "distinct by printed form")
     rep.partial = [
-        "functorial lifting of the per-gate theorem to whole circuits (one overall scalar = product of the "
-        "per-gate scalars) is C04 + C09; at circuit level it is checked by the oracle and exact correspondence",
-        "zx_dagger is proved per generator (every arity and phase); anti-multiplicativity of the conjugate "
-        "transpose for whole diagrams is checked on every generated diagram, not proved",
+        "the lifting of the per-gate theorem to whole circuits (one overall non-zero scalar = product of the "
+        "per-gate scalars) is proved in Lean for every well-typed circuit over the translated gate set at the "
+        "even integer phase indices (kets/bras <= 4 bits) and generically over any commutative ring; circuits with "
+        "longer kets/bras are covered by the oracle and exact correspondence only",
+        "the dagger of a whole ZX diagram is proved (every well-typed diagram, any arities and phases) for the "
+        "model's interpretation; discopy's own .dagger() is tied to the model's by exact correspondence",
         "gate2zx_sound for kets/bras is decided for bitstrings of <= 3 bits; the as-is CRx image is refuted at "
         "phase 1/4 only (CRz, CU1: exact extent proved for every real phase)"]
     rep.assumptions = [
